@@ -34,11 +34,16 @@ type Failure struct {
 	Def      string           `json:"def"`
 	DefIdx   int              `json:"defidx"`
 	Env      []string         `json:"env"`
+	DefNames []string         `json:"def_names"` // schema names of the defs, by index (for -replay)
 	Op       string           `json:"op"`
 	Expected string           `json:"expected"`
 	Observed string           `json:"observed"`
 	Model    string           `json:"model"`
 	Note     string           `json:"note"`
+	// Class: what the case is an instance of, for matching against the committed known findings:
+	// "resource:<kind>:<path>" for allocations / crashes / timeouts, "nested-struct" for C04 cases
+	// whose record holds an evolved message below a nested struct, "" otherwise.
+	Class string `json:"class"`
 }
 
 // PropStats are the statistics of one property.
